@@ -54,6 +54,14 @@ Theorem C14_writer_log_accepted_open :
 Proof. exact wmw_steps_accepted. Qed.
 Print Assumptions C14_writer_log_accepted_open.
 
+(* the log without close is a prefix of the log with close *)
+Theorem C14_writer_open_log_is_prefix :
+  forall (summ1 : N -> list N -> wm_sentry) (summN : bool -> list wm_sentry -> wm_sentry) (p : list wop), exists l2,
+  wmw_evs (wm_st_log (fst (wm_run_full summ1 summN p))) =
+  wmw_evs (wm_st_log (fst (wm_steps summ1 summN wm_api_open p []))) ++ l2.
+Proof. exact wmw_open_log_prefix. Qed.
+Print Assumptions C14_writer_open_log_is_prefix.
+
 (* (a'') every prefix of the log (the first k backend calls), in particular a stop inside an API call *)
 Theorem C14_writer_log_prefix_accepted :
   forall (summ1 : N -> list N -> wm_sentry) (summN : bool -> list wm_sentry -> wm_sentry) (p : list wop),
